@@ -348,7 +348,14 @@ func runC12(c *Ctx) {
 		check("M3-agree", cls, ok)
 		if !ok {
 			sig := "scanner-parser-disagree"
-			if hasBackslashClosedLiteral(e) {
+			// the known defect: the literal is never closed, so no expression is found at all and the text stays as it is
+			noExpr := true
+			for _, t := range got {
+				if t.K != "B" {
+					noExpr = false
+				}
+			}
+			if hasBackslashClosedLiteral(e) && noExpr {
 				sig = "scanner-text-literal-closing-quote-after-backslash"
 			}
 			c.Fail("monitor", "M3-agree", sig, "the scanner does not end the expression where the parser's expression ends",
@@ -365,6 +372,10 @@ func runC12(c *Ctx) {
 func genExprText(r *Rng, depth int) string {
 	lit := func() string {
 		s := genStringBS(r, 6)
+		if r.Chance(6) {
+			// a quote after a run of backslashes inside a literal, followed by what would matter if the literal ended there
+			return Pick(r, []string{`"\\")("`, `"\\\\")"`, `"x\\"(y)"`, `"\\" & ")"`, `"(\\")"`, `"a\\\")"`})
+		}
 		switch r.Intn(4) {
 		case 0:
 			return strconv.Quote(s)
